@@ -821,6 +821,20 @@ def explore_stateless(cfg, depth):
     return res
 
 
+def run_path_reentrant(cfg, path):
+    """replay of a path found by the snapshot search, with the search's own semantics: run() is left at every environment choice and
+    entered again after the choice was made (a driver with loop-carried state behaves differently in one uninterrupted run() call -
+    that is what the stateless mode explores, and its paths are replayed with run_path)"""
+    r = Run(cfg)
+    out = r.resume()
+    for x in path:
+        if out[0] != "pause":
+            break
+        r.comps[out[1]].pending = x
+        out = r.resume()
+    return out, [(c, fp, w, list(path)) for c, fp, w in r.viol], r
+
+
 def run_path(cfg, path, default=False):
     """re-executes one choice sequence without the explorer (replay); returns (outcome, violations)"""
     r = Run(cfg, script=path, default=default)
